@@ -44,6 +44,7 @@ M0(c) ==
     completed|-> {},            \* steps that reported completion
     closedRet|-> {},            \* steps whose ForceClose/Close has returned
     slots    |-> {},            \* <<step, stage>> provided and not yet taken
+    sst      |-> {},            \* <<step, stage>>: the stage each plugin step last declared (SSet)
     stopped  |-> {},            \* steps whose stop condition fired before their execution was spawned
     spawned  |-> {},            \* steps whose execution goroutine was spawned
     stopPending |-> {},         \* steps that were handed a true stop condition inside the handler that is still running
@@ -232,8 +233,22 @@ OnErrPush(mm, e) ==
   IN  VS([mm EXCEPT !.errKinds = @ \cup {e.kind}], c1 \cup c2 \cup c3 \cup c4 \cup c5)
 
 \* ---- step-side events ------------------------------------------------------------------------------------------
+\* Engine.tla's invariant StateSlotTruthful evaluated on the recorded execution: a plugin step never declares itself
+\* waiting for an input that has been provided and not yet taken (the fallback detector trusts that declaration)
+InputStages == {"deploy", "enabling", "starting"}
+OnSSet(mm, e) ==
+  LET mm1 == [mm EXCEPT !.sst = {x \in @ : x[1] # e.step} \cup {<<e.step, e.stage>>}]
+  IN  IF e.state = "waiting_for_input" /\ e.stage \in InputStages /\ <<e.step, e.stage>> \in mm.slots
+        THEN V(mm1, "C09", "step-declared-waiting-although-its-input-was-provided", e.step \o "." \o e.stage)
+        ELSE mm1
+\* ... and providing the input of the stage a step is in ends its waiting
+ProvKeepsWaiting(mm, e) ==
+  e.ok /\ e.stage \in InputStages /\ e.state = "waiting_for_input" /\ <<e.step, e.stage>> \in mm.sst
+
 OnSProv(mm, e) ==
   IF ~e.ok THEN mm
+  ELSE IF ProvKeepsWaiting(mm, e)
+    THEN V([mm EXCEPT !.slots = @ \cup {<<e.step, e.stage>>}], "C09", "input-provided-but-step-still-declares-waiting", e.step \o "." \o e.stage)
   ELSE IF e.stage = "cancelled"
     THEN (IF e.val = "true" /\ e.step \notin mm.checked /\ e.step \notin mm.spawned
             THEN [mm EXCEPT !.stopPending = @ \cup {e.step}] ELSE mm)
@@ -295,6 +310,7 @@ Dispatch(mm, e) ==
     [] e.ev = "SExit"     -> [mm EXCEPT !.alive = @ \ {e.step}]
     [] e.ev = "SProv"     -> OnSProv(mm, e)
     [] e.ev = "SSlot"     -> OnSSlot(mm, e)
+    [] e.ev = "SSet"      -> OnSSet(mm, e)
     [] e.ev = "SExec"     -> OnSExec(mm, e)
     [] e.ev = "SCloseRet" -> [mm EXCEPT !.closedRet = @ \cup {e.step}]
     [] e.ev = "XDeploy"   -> [mm EXCEPT !.conns = @ \cup {e.conn}]
